@@ -22,6 +22,32 @@ extern "C" time_t time(time_t* t) {
   return g_fake_now;
 }
 
+// op `handler 1`: a notification handler that does what frontends do inside it - session-level API calls on the session the
+// message is about (status, option, state label, current schema); `handler 0` removes it.  Never calls
+// set_notification_handler itself (that takes the lock Service::Notify holds).
+static RimeApi* g_api = nullptr;
+static long g_handler_calls = 0;
+static void on_message(void*, RimeSessionId sid, const char* type, const char* value) {
+  ++g_handler_calls;
+  if (!g_api || !sid) return;
+  RIME_STRUCT(RimeStatus, st);
+  if (g_api->get_status(sid, &st)) g_api->free_status(&st);
+  std::string t(type ? type : ""), v(value ? value : "");
+  if (t == "option") {
+    bool on = v.empty() || v[0] != '!';
+    std::string name = on ? v : v.substr(1);
+    g_api->get_option(sid, name.c_str());
+    g_api->get_state_label_abbreviated(sid, name.c_str(), on ? True : False, True);
+    g_api->get_state_label(sid, name.c_str(), on ? True : False);
+  } else if (t == "schema") {
+    char buf[64];
+    g_api->get_current_schema(sid, buf, sizeof buf);
+    g_api->get_input(sid);
+  } else {
+    g_api->get_property(sid, "p1", nullptr, 0);
+  }
+}
+
 int main(int argc, char** argv) {
   if (argc < 5) {
     fprintf(stderr, "usage: c16 <shared> <user> <staging> <script>\n");
@@ -57,6 +83,14 @@ int main(int argc, char** argv) {
       long d;
       ls >> d;
       g_fake_now += d;
+      std::cout << lineno << "|" << lg << "|" << op << "|-|0|unit\n";
+      continue;
+    }
+    if (op == "handler") {
+      int on = 0;
+      ls >> on;
+      g_api = api;
+      api->set_notification_handler(on ? on_message : nullptr, nullptr);
       std::cout << lineno << "|" << lg << "|" << op << "|-|0|unit\n";
       continue;
     }
@@ -115,6 +149,7 @@ int main(int argc, char** argv) {
   std::cout.flush();
   api->cleanup_all_sessions();
   env.stop();
+  std::cout << "HANDLER-CALLS " << g_handler_calls << "\n";
   std::cout << (g_time_called ? "DONE" : "DONE-BUT-time()-NOT-INTERPOSED") << std::endl;
   return 0;
 }
